@@ -16,6 +16,7 @@ import DimModel.Lib.Interp
 import DimModel.Lib.OnDisk
 import DimModel.Lib.Heap
 import DimModel.Lib.DatasetOps
+import DimModel.Lib.DatasetInterp
 open Lean
 namespace DimModel.Driver
 open DimModel.Codec
@@ -92,9 +93,6 @@ def encDs (ds : DSV.Ds Cell) : Json :=
   Json.mkObj [("keys", Json.arr (ds.keys.map Json.str).toArray), ("dims", Json.arr (ds.dims.map Json.str).toArray),
     ("axes", Json.arr (ds.axes.map encAxis).toArray),
     ("vars", Json.mkObj (ds.vars.map fun kv => (kv.1, encDimArray kv.2))), ("attrs", encAttrs ds.attrs)]
-
-def scalarArr (c : Cell) (vk : Kind) (attrs : Attrs) : DimArray Cell :=
-  { axes := [], vals := { shape := [], get := fun _ => c }, vkind := vk, attrs := attrs }
 
 /-- one step of an operation chain applied to an array (C10, C11, C05 histories) -/
 def applyStep (a : DimArray Cell) (st : Json) : P (Except Err (DimArray Cell)) := do
@@ -196,6 +194,20 @@ def encDS (s : DS.State) (res : Except Err Unit) : Json :=
     ("labels", Json.arr (s.axes.map (fun ax => Json.arr (ax.labels.map encLabel).toArray)).toArray),
     ("vars", Json.mkObj (s.vars.map fun v => (v.1, Json.arr (v.2.map (fun i => Json.str (DS.nameOf s i))).toArray))),
     ("shared", Json.mkObj (s.vars.map fun v => (v.1, Json.arr (v.2.map (fun i => Json.bool (s.axes.any (·.id == i)))).toArray)))]
+
+/-- the variables of one Dataset of a request; the cells of variable `k` are `src (off + k) i` -/
+def arraysFrom (off : Nat) (j : Json) : P (List (DimArray Cell)) := do
+  let a ← arr (fldD j "arrays" (Json.arr #[]))
+  (a.toList.zipIdx).mapM (fun (x, k) => dimArray (off + k) x)
+
+/-- a Dataset of a request ("keys", "arrays", "attrs"), built variable by variable with `__setitem__`; returns the
+source index after its last variable -/
+def dsArg (off : Nat) (j : Json) : P (Nat × Except Err (DSV.Ds Cell)) := do
+  let as ← arraysFrom off j
+  let keys ← listOf str (← fld j "keys")
+  let dsattrs ← attrs (fldD j "attrs" (Json.arr #[]))
+  let built := (keys.zip as).foldlM (fun (ds : DSV.Ds Cell) kv => DSV.setItem ds kv.1 kv.2) {}
+  pure (off + as.length, built.map fun ds0 => { ds0 with attrs := dsattrs })
 
 /-- handlers: request → answer fields -/
 def handle (op : String) (req : Json) : P (List (String × Json)) := do
@@ -417,20 +429,29 @@ def handle (op : String) (req : Json) : P (List (String × Json)) := do
       out := out ++ [Json.arr (st.obs.map encArrObs).toArray]
     pure [("lib", Json.arr out.toArray)]
   | "ds_op" => do
-    -- C14: a Dataset built variable by variable, then one Dataset-level operation
-    let as ← arrays req
-    let keys ← listOf str (← fld req "keys")
-    let dsattrs ← attrs (fldD req "attrs" (Json.arr #[]))
-    let name ← str (← fld req "dim")
+    -- C14: a Dataset built variable by variable, then one Dataset-level operation.  Further Datasets of the request
+    -- ("others": the right operand of "arith", the other inputs of "stack_ds" / "concatenate_ds") are built the same
+    -- way; the cells of their variables continue the numbering of the sources (`src k i`, k counted over all Datasets)
+    let (n0, built) ← dsArg 0 req
+    let mut off := n0
+    let mut others : List (Except Err (DSV.Ds Cell)) := []
+    for oj in (← arr (fldD req "others" (Json.arr #[]))).toList do
+      let (n, o) ← dsArg off oj
+      off := n
+      others := others ++ [o]
+    let name ← str (fldD req "dim" (Json.str ""))
     let fn ← str (← fld req "fn")
     let labels ← listOf label (fldD req "labels" (Json.arr #[]))
     let nk ← kind (fldD req "newkind" (Json.str "f"))
     let fk ← kind (fldD req "fillkind" (Json.str "f"))
     let i ← optOf ix (fldD req "ix" Json.null)
     let cfg ← indexCfg (fldD req "cfg" (Json.mkObj []))
-    let built := (keys.zip as).foldlM (fun (ds : DSV.Ds Cell) kv => DSV.setItem ds kv.1 kv.2) {}
-    let r : Except Err (DSV.Ds Cell) := built.bind fun ds0 =>
-      let ds : DSV.Ds Cell := { ds0 with attrs := dsattrs }
+    let axisKey ← optOf dimKey (fldD req "axis" Json.null)
+    let stackAxis ← optOf str (fldD req "stackaxis" Json.null)
+    let kk ← kind (fldD req "keykind" (Json.str "i"))
+    let operand ← str (fldD req "operand" (Json.str "ds"))
+    let tmpl ← listOf axis (fldD req "template" (Json.arr #[]))
+    let r : Except Err (DSV.Ds Cell) := built.bind fun ds =>
       match fn with
       | "sort_axis" => DSV.sortAxisDs ds name
       | "take_axis" => DSV.takeAxisLabel ds name labels false
@@ -438,11 +459,18 @@ def handle (op : String) (req : Json) : P (List (String × Json)) := do
       | "take" => (match i with
           | some i => DSV.takeDs ds name i cfg
           | none => .error .other)
-      | "reduce" =>
-        DSV.applyAxis Cell.nan ds name fun v =>
-          (Lib.reduceAxis Cell.red v (.one (.name name))).map fun x => match x with
-            | .inl c => scalarArr c v.vkind v.attrs
-            | .inr a => a
+      | "reduce" => DSV.reduceDs Cell.nan Cell.red ds name
+      | "interp_axis" => DSV.interpAxisDs (fun a b w => Cell.lin a b w) ds name labels nk Cell.fill Cell.fill2
+      | "arith" =>
+        (match operand, others with
+          | "scalar", _ => DSV.binaryOpDs Cell.nan Cell.op ds (.scalar (Cell.rhs 0))
+          | "ds", [o] => o.bind fun o => DSV.binaryOpDs Cell.nan Cell.op ds (.ds o)
+          | _, _ => DSV.binaryOpDs Cell.nan Cell.op ds .other)
+      | "stack_ds" => (others.mapM id).bind fun os => DSV.stackDs Cell.nan (ds :: os) stackAxis labels kk
+      | "concatenate_ds" => (others.mapM id).bind fun os =>
+          DSV.concatenateDs Cell.nan (ds :: os) (axisKey.getD (.pos 0))
+      | "copy" => DSV.copyDs Cell.nan ds
+      | "reindex_like" => DSV.reindexLikeDs Cell.fill ds tmpl
       | _ => .error .other
     pure [("lib", encExcept encDs r)]
   | _ => throw s!"unknown op {op}"
